@@ -1,6 +1,7 @@
 """C17 — Morphy returns only valid lemmas when initialized and all candidates otherwise (structural clauses)."""
 from __future__ import annotations
 import ast
+from ..pat import Frag
 from ..src import norm, walk_no_nested, AnalysisError
 from ..consts import const, Unknown
 from ..pyutil import parents
@@ -59,14 +60,14 @@ def r1_provenance(ctx, res):
             msg = f'`{arg}` is added to the candidates: not the query, an exception-map entry or a rule output'
         if not ok:
             res.find(key, f.module.loc(a), f'Morphy._morphstr: {msg} (guards: {gt})')
-    src = norm(f.node)
+    src = Frag(f.node)
     key = 'lemma-inventory-per-pos'
     res.inst(key, loc, 'all_lemmas = self._all_lemmas[pos] when initialized, empty otherwise')
     if 'all_lemmas = self._all_lemmas[pos]' not in src or 'initialized = self._initialized' not in src:
         res.find(key, loc, '_morphstr no longer filters against the lemma inventory of the requested part of speech')
     c = ctx.repo.func('morphy', 'Morphy.__call__')
     key = 'uninitialized-adds-original'
-    s2 = norm(c.node)
+    s2 = Frag(c.node)
     ifs = [n for n in walk_no_nested(c.node) if isinstance(n, ast.If) and norm(n.test) == 'not self._initialized']
     res.inst(key, c.module.loc(c.node), 'result[pos] = {form} when not initialized')
     if len(ifs) != 1 or [norm(x) for x in ifs[0].body] != ['result[pos] = {form}']:
@@ -119,7 +120,7 @@ def r3_rule_table(ctx, res):
                 res.find(key, 'wn/morphy.py', f'malformed rule {r!r}')
     init = ctx.repo.func('morphy', 'Morphy.__init__')
     key = 'rules-filtered-to-WN'
-    s = norm(init.node)
+    s = Frag(init.node)
     res.inst(key, init.module.loc(init.node), 'rule[2] & _System.WN')
     if 'pos: [rule for rule in rules if rule[2] & _System.WN] for pos, rules in DETACHMENT_RULES.items()' not in s:
         res.find(key, init.module.loc(init.node), 'Morphy no longer keeps exactly the rules flagged for the WN system')
@@ -131,7 +132,7 @@ def r3_rule_table(ctx, res):
 
 def r4_initialisation(ctx, res):
     init = ctx.repo.func('morphy', 'Morphy.__init__')
-    s = norm(init.node)
+    s = Frag(init.node)
     loc = init.module.loc(init.node)
 
     def chk(key, ok, msg):
@@ -153,7 +154,7 @@ def r4_initialisation(ctx, res):
 
 def r5_dispatch(ctx, res):
     c = ctx.repo.func('morphy', 'Morphy.__call__')
-    s = norm(c.node)
+    s = Frag(c.node)
     loc = c.module.loc(c.node)
 
     def chk(key, ok, msg):
